@@ -1156,8 +1156,8 @@ func (c *ChannelWriter) mapDBAndCollectionName(db, collection string) (string, s
 			return false
 		}
 		if sourceDB == db && (sourceCollection == "*" || collection == "") {
+			// keep scanning: the iteration order is undefined and a collection-level entry takes precedence
 			returnDB, _ = util.GetCollectionNameFromFull(target)
-			return false
 		}
 		return true
 	})
